@@ -379,3 +379,167 @@ Proof.
   rewrite node_rows_set_same, <- Hd. unfold update_hash. rewrite map_map. apply map_ext. intros e.
   rewrite toggle_hash. unfold GraphCount.tog, GraphCount.par, cnt, GraphCount.cnt. reflexivity.
 Qed.
+
+(* ---------- C01 for edge points, over histories ---------- *)
+Definition edge_rows (st : store) (up down : bytes) : list point :=
+  match find_edge (s_edges st) up down with Some e => e_pts e | None => [] end.
+
+Definition edges_ok (st : store) : Prop :=
+  forall e, In e (s_edges st) -> keys_norm (e_pts e) /\ nodup_rows (e_pts e).
+
+Lemma find_edge_map g G up down :
+  (forall e, e_up (g e) = e_up e /\ e_down (g e) = e_down e) ->
+  find_edge (map g G) up down = option_map g (find_edge G up down).
+Proof.
+  intros H. unfold find_edge. induction G as [|e G IH]; [reflexivity|]. cbn [map find].
+  destruct (H e) as [-> ->]. destruct (bytes_eqb (e_up e) up && bytes_eqb (e_down e) down); [reflexivity|exact IH].
+Qed.
+
+Lemma find_edge_map_in g G up down :
+  (forall e, In e G -> e_up (g e) = e_up e /\ e_down (g e) = e_down e) ->
+  find_edge (map g G) up down = option_map g (find_edge G up down).
+Proof.
+  unfold find_edge. induction G as [|x G IH]; intros Hg; [reflexivity|]. cbn [map find].
+  destruct (Hg x (or_introl eq_refl)) as [-> ->].
+  destruct (bytes_eqb (e_up x) up && bytes_eqb (e_down x) down); [reflexivity|].
+  apply IH. intros y Hy. apply Hg. right. exact Hy.
+Qed.
+
+Lemma edge_rows_toggle vs d G ns r n ns2 r2 n2 up down :
+  edge_rows (mkStore ns (map (toggle vs d) G) r n) up down = edge_rows (mkStore ns2 G r2 n2) up down.
+Proof.
+  unfold edge_rows. cbn [s_edges]. rewrite find_edge_map by (intros e; rewrite toggle_up, toggle_down; auto).
+  destruct (find_edge G up down); cbn [option_map]; [apply toggle_pts|reflexivity].
+Qed.
+
+Lemma node_points_edge_rows st id pts st' up down :
+  node_points st id pts = Ok st' -> edge_rows st' up down = edge_rows st up down.
+Proof.
+  destruct st as [ns G r n]. unfold node_points. cbn [s_nodes s_edges s_root s_next].
+  destruct (has_nan pts); [discriminate|].
+  destruct (merge_batch false (node_rows ns id) (collapse pts)) as [rows d].
+  intros E. inversion E; subst st'. unfold update_hash. apply edge_rows_toggle.
+Qed.
+
+Lemma node_points_edges_ok st id pts st' : edges_ok st -> node_points st id pts = Ok st' -> edges_ok st'.
+Proof.
+  intros HO. unfold node_points. destruct (has_nan pts); [discriminate|].
+  destruct (merge_batch false (node_rows (s_nodes st) id) (collapse pts)) as [rows d].
+  intros E. inversion E; subst st'. intros e He. cbn [s_edges] in He. unfold update_hash in He.
+  apply in_map_iff in He as (e0 & <- & He0). rewrite toggle_pts. apply HO. exact He0.
+Qed.
+
+Lemma find_edge_app_none G e up down : find_edge G up down = None ->
+  find_edge (G ++ [e]) up down = if bytes_eqb (e_up e) up && bytes_eqb (e_down e) down then Some e else None.
+Proof.
+  unfold find_edge. induction G as [|g G IH]; cbn [app find]; intros H; [reflexivity|].
+  destruct (bytes_eqb (e_up g) up && bytes_eqb (e_down g) down); [discriminate|apply IH; exact H].
+Qed.
+
+Lemma find_edge_app_some G e up down x : find_edge G up down = Some x -> find_edge (G ++ [e]) up down = Some x.
+Proof.
+  unfold find_edge. induction G as [|g G IH]; cbn [app find]; intros H; [discriminate|].
+  destruct (bytes_eqb (e_up g) up && bytes_eqb (e_down g) down); [exact H|apply IH; exact H].
+Qed.
+
+(* one edge point request: the rows of the written edge follow the batch, all other edges keep theirs *)
+Theorem edge_points_edge_rows st id par pts st' :
+  wf st -> edges_ok st -> par <> [] ->
+  edge_points st id par pts = Ok st' ->
+  edge_rows st' par id = batch_rows true (edge_rows st par id) pts /\
+  (forall up down, (up, down) <> (par, id) -> edge_rows st' up down = edge_rows st up down) /\
+  edges_ok st'.
+Proof.
+  intros W HO Hpar. unfold edge_points. destruct (has_nan pts); [discriminate|].
+  destruct (bytes_eqb id par); [discriminate|].
+  destruct (bytes_eqb id (s_root st) && existsb _ (collapse pts)); [discriminate|].
+  assert (match par with [] => str_root | _ :: _ => par end = par) as -> by (destruct par; [contradiction|reflexivity]).
+  destruct st as [ns G r n]. cbn [s_nodes s_edges s_root s_next] in *.
+  destruct (find_edge G par id) as [e|] eqn:Ef.
+  - destruct (merge_batch true (e_pts e) (collapse pts)) as [rows d] eqn:EM.
+    intros E. inversion E; subst st'; clear E.
+    destruct (find_edge_spec _ _ _ _ Ef) as (He & Hu & Hd).
+    assert (Hrows : rows = batch_rows true (e_pts e) pts) by (unfold batch_rows; rewrite EM; reflexivity).
+    set (e1 := mkEdge (e_id e) (e_up e) (e_down e) (e_type e) rows (e_hash e)).
+    unfold update_edge_hash, set_edge. rewrite map_map.
+    set (vs := e_id e :: _).
+    set (g := fun x => toggle vs d (if e_id x =? e_id e1 then e1 else x)).
+    assert (Hg : forall x, In x G -> e_up (g x) = e_up x /\ e_down (g x) = e_down x).
+    { intros x Hx. unfold g. rewrite toggle_up, toggle_down. destruct (e_id x =? e_id e1) eqn:E; [|auto].
+      apply N.eqb_eq in E. assert (x = e) by (apply (eid_inj G); auto using (wf_ids _ W)). subst x. auto. }
+    assert (Hfind : forall up down, find_edge (map g G) up down = option_map g (find_edge G up down)).
+    { intros up down. apply find_edge_map_in. exact Hg. }
+    split; [|split].
+    + unfold edge_rows. cbn [s_edges]. rewrite Hfind, Ef. cbn [option_map]. unfold g.
+      rewrite toggle_pts. change (e_id e1) with (e_id e). rewrite N.eqb_refl. cbn [e_pts e1]. exact Hrows.
+    + intros up down Hne. unfold edge_rows. cbn [s_edges]. rewrite Hfind.
+      destruct (find_edge G up down) as [x|] eqn:Ex; [|reflexivity]. cbn [option_map]. unfold g. rewrite toggle_pts.
+      destruct (find_edge_spec _ _ _ _ Ex) as (Hx & Hxu & Hxd).
+      destruct (e_id x =? e_id e1) eqn:E; [|reflexivity].
+      apply N.eqb_eq in E. assert (x = e) by (apply (eid_inj G); auto using (wf_ids _ W)). subst x.
+      exfalso. apply Hne. rewrite <- Hxu, <- Hxd, Hu, Hd. reflexivity.
+    + intros x' Hx'. cbn [s_edges] in Hx'. apply in_map_iff in Hx' as (x & <- & Hx). unfold g. rewrite toggle_pts.
+      destruct (e_id x =? e_id e1); [|apply HO; exact Hx].
+      cbn [e_pts e1]. rewrite Hrows. split; [apply batch_rows_keys|apply batch_rows_nodup]; apply (HO e He).
+  - destruct (is_upstream G (fuel_of G) id par); [discriminate|].
+    destruct (merge_batch true [] (collapse pts)) as [rows d] eqn:EM.
+    destruct (last_node_type (collapse pts)) as [|c nt]; [discriminate|].
+    intros E. inversion E; subst st'; clear E.
+    assert (Hrows : rows = batch_rows true [] pts) by (unfold batch_rows; rewrite EM; reflexivity).
+    set (e1 := mkEdge n par id (c :: nt) rows 0).
+    unfold update_edge_hash.
+    assert (Hfind : forall vs dd up down, find_edge (map (toggle vs dd) (G ++ [e1])) up down = option_map (toggle vs dd) (find_edge (G ++ [e1]) up down)).
+    { intros vs dd up down. apply find_edge_map. intros x. rewrite toggle_up, toggle_down. auto. }
+    split; [|split].
+    + unfold edge_rows. cbn [s_edges]. rewrite Hfind, (find_edge_app_none _ _ _ _ Ef). cbn [e_up e_down e1].
+      rewrite !bytes_eqb_refl. cbn [andb option_map]. rewrite toggle_pts. cbn [e_pts e1]. rewrite Ef. exact Hrows.
+    + intros up down Hne. unfold edge_rows. cbn [s_edges]. rewrite Hfind.
+      destruct (find_edge G up down) as [x|] eqn:Ex.
+      * rewrite (find_edge_app_some _ _ _ _ _ Ex). cbn [option_map]. apply toggle_pts.
+      * rewrite (find_edge_app_none _ _ _ _ Ex). cbn [e_up e_down e1].
+        destruct (bytes_eqb par up && bytes_eqb id down) eqn:E; [|reflexivity].
+        apply andb_prop in E as [E1 E2]. apply bytes_eqb_eq in E1, E2. subst. exfalso. apply Hne. reflexivity.
+    + intros x' Hx'. cbn [s_edges] in Hx'. apply in_map_iff in Hx' as (x & <- & Hx). rewrite toggle_pts.
+      apply in_app_or in Hx as [Hx|[<-|[]]]; [apply HO; exact Hx|].
+      cbn [e_pts e1]. rewrite Hrows. split; [apply batch_rows_keys|apply batch_rows_nodup]; constructor.
+Qed.
+
+(* edge points accepted along a history for the edge (par, id), in order of delivery *)
+Fixpoint accepted_edge (st : store) (ops : list op) (par id : bytes) : list point :=
+  match ops with
+  | [] => []
+  | o :: ops' =>
+      (match o with
+       | EdgePts i p pts => if (reply_of (handle st o) =? 0) && bytes_eqb i id && bytes_eqb p par then eff true pts else []
+       | NodePts _ _ => []
+       end) ++ accepted_edge (state_of (handle st o)) ops' par id
+  end.
+
+Definition parents_ok (ops : list op) : Prop := Forall op_ok ops.
+
+Theorem newest_wins_edge ops : forall st par id t k,
+  wf st -> Inv st -> edges_ok st -> Forall op_ok ops ->
+  lookup (edge_rows (run st ops) par id) t k =
+  fold_left newer (sel t k (map normp (accepted_edge st ops par id))) (lookup (edge_rows st par id) t k).
+Proof.
+  induction ops as [|o ops IH]; intros st par id t k W HI HO Hok; cbn [run accepted_edge]; [reflexivity|].
+  inversion Hok as [|? ? Ho Hoks]; subst.
+  destruct (handle_inv st o W HI Ho) as [W' HI'].
+  rewrite map_app, sel_app, fold_left_app.
+  destruct o as [i pts|i p pts]; cbn [handle] in *.
+  - destruct (node_points st i pts) as [st'|e] eqn:E; cbn [state_of reply_of fst snd app map sel filter fold_left] in *.
+    + rewrite (IH st' par id t k W' HI' (node_points_edges_ok _ _ _ _ HO E) Hoks).
+      rewrite (node_points_edge_rows _ _ _ _ par id E). reflexivity.
+    + apply IH; assumption.
+  - destruct Ho as [Hp Hi]. destruct (edge_points st i p pts) as [st'|e] eqn:E; cbn [state_of reply_of fst snd] in *.
+    + destruct (edge_points_edge_rows st i p pts st' W HO Hp E) as (Hsame & Hother & HO').
+      rewrite (IH st' par id t k W' HI' HO' Hoks). f_equal. cbn [N.eqb andb].
+      destruct (bytes_eqb i id && bytes_eqb p par) eqn:Eip.
+      * apply andb_prop in Eip as [E1 E2]. apply bytes_eqb_eq in E1, E2. subst i p.
+        rewrite Hsame. rewrite batch_rows_lookup; [reflexivity|].
+        unfold edge_rows. destruct (find_edge (s_edges st) par id) as [x|] eqn:Ex; [|constructor].
+        apply (HO x). apply (find_edge_spec _ _ _ _ Ex).
+      * cbn [map sel filter fold_left]. rewrite Hother; [reflexivity|].
+        intros Heq. inversion Heq; subst. rewrite !bytes_eqb_refl in Eip. discriminate.
+    + cbn [app map sel filter fold_left]. apply IH; assumption.
+Qed.
